@@ -615,7 +615,7 @@ def run_check(pid, tier, seed, mc_cfgs, compile_fn, random_fn, n_tlc, n_rand, ne
                                      "--seed <seed> --out t.ndjson ; tools/tv.sh %s t.ndjson" % spec["trace"]}, key=key):
                 nviol += 1
     for k, n in need.items():
-        if stats.get(k, 0) < n:
+        if nviol == 0 and stats.get(k, 0) < n:
             raise vlib.ToolError("vacuity: the runs contain %d x %s (need >= %d): %s" % (stats.get(k, 0), k, n, stats))
 
     st = None
